@@ -9,6 +9,10 @@ CLAIMED = {
          'Static rule check: every suspend point of the incremental JSON number/string automata (all instantiations) restores the label it left and carries the partial token; decided from the resolved AST, no execution. Necessary structural clauses of chunking independence, not the behaviour.',
          'Decides clauses R03.*; does not decide event-sequence equality for all inputs. Trusted: clang 14 Sema, the fact plugin, the Python analysers.',
          'DESIGN.md §4 C03'),
+ 'C10': ('CFG dominance + interprocedural call-site search for nesting-limit guards; exactness of the comparison shape',
+         'Static rule check: every container-open emission in the five decoders, the CBOR typed-array iterators and the TOON reader, and every encoder open, is dominated by an exact nesting-limit comparison whose failing edge stores the error and returns. Quantifies over code sites (all paths that open a container), which no depth test sample does.',
+         'Decides clauses R10.*; does not decide stack bytes per level or memory proportionality as numbers. Known findings F9 (CBOR typed arrays) and F16 (TOON) are reported as KNOWN-FINDING.',
+         'DESIGN.md §4 C10'),
 }
 NOT_YET = 'check under construction in this session; no structural rule registered yet'
 NA = {}
